@@ -136,21 +136,102 @@ def struct_pack_general(I, f, vals):
     return out
 
 
+_STRUCT_SIZES = {"x": 1, "B": 1, "b": 1, "H": 2, "h": 2, "I": 4, "i": 4, "L": 4, "l": 4, "Q": 8, "q": 8, "s": 1, "?": 1}
+
+
+def _struct_fields(fmt):
+    """[(code, count)] and byte order of a standard-size struct format; None if outside the modelled subset"""
+    if not fmt:
+        return None, None
+    if fmt[0] in "<>!":
+        order = "little" if fmt[0] == "<" else "big"
+        body = fmt[1:]
+    elif all(ch.isdigit() or ch.isspace() or ch in "xBbs?" for ch in fmt.lstrip("@=")):
+        order, body = "little", fmt.lstrip("@=")        # single-byte fields only: byte order and native alignment do not matter
+    else:
+        return None, None       # native sizes / alignment and '=' with multi-byte fields are not modelled
+    out = []
+    num = ""
+    for ch in body:
+        if ch.isdigit():
+            num += ch
+            continue
+        if ch.isspace():
+            continue
+        if ch not in _STRUCT_SIZES:
+            return None, None
+        out.append((ch, int(num) if num else 1))
+        num = ""
+    if num:
+        return None, None
+    return out, order
+
+
+def _struct_unpack(I, fmt, data, offset, exact):
+    fields, order = _struct_fields(fmt.c if isinstance(fmt, VStr) else None)
+    if fields is None:
+        raise Unsupported(f"struct format {fmt!r}")
+    data = I.resolve(data)
+    if not isinstance(data, VBytes):
+        I.raise_py("builtins.TypeError", "a bytes-like object is required")
+    size = sum((cnt if code in ("s", "x") else cnt * _STRUCT_SIZES[code]) for code, cnt in fields)
+    n = data.length()
+    if not (isinstance(offset, VInt) and offset.c is not None and offset.c >= 0):
+        raise Unsupported("struct.unpack_from with a symbolic or negative offset")
+    off = offset.c
+    bad = (_iv(n) != size) if exact else (_iv(n) - off < size)
+    if isinstance(n, int):
+        if (n != size) if exact else (n - off < size):
+            I.raise_py("struct.error", "unpack requires a buffer of the right size")
+    elif I.path.branch(bad, "struct.error"):
+        I.raise_py("struct.error", "unpack requires a buffer of the right size")
+    vals = []
+    pos = off
+    for code, cnt in fields:
+        if code == "x":
+            pos += cnt
+            continue
+        if code == "s":
+            vals.append(I.slice_bytes(data, mkint(pos), mkint(pos + cnt)) if data.kind == "bytes" else
+                        VBytes(I.slice_bytes(data, mkint(pos), mkint(pos + cnt)).segs, "bytes"))
+            pos += cnt
+            continue
+        w = _STRUCT_SIZES[code]
+        for _ in range(cnt):
+            bs = [byte_val(data.at(pos + k)) for k in range(w)]
+            if order == "big":
+                bs.reverse()
+            v = bs[0]
+            for k in range(1, w):
+                v = ops._bitop(I, "|", v, ops._shift(I, "<<", bs[k], mkint(8 * k)))
+            if code == "?":
+                v = ops.int_cmp("!=", v, mkint(0))
+            elif code in "bhilq":
+                # two's complement
+                neg = ops.int_cmp(">=", v, mkint(1 << (8 * w - 1)))
+                v = ops.union_of([(neg.term(), ops._arith(I, "-", v, mkint(1 << (8 * w)))), (z3.Not(neg.term()), v)]) if neg.c is None else \
+                    (ops._arith(I, "-", v, mkint(1 << (8 * w))) if neg.c else v)
+            vals.append(v)
+            pos += w
+    return VTuple(vals)
+
+
 def struct_unpack(I, fv, args, kw):
     used(I, "struct.unpack")
-    fmt, data = args
-    if not (isinstance(fmt, VStr) and fmt.c == "<H"):
-        raise Unsupported("struct.unpack format")
-    data = I.resolve(data)
-    n = data.length()
-    if isinstance(n, int):
-        if n != 2:
-            I.raise_py("struct.error", "unpack requires a buffer of 2 bytes")
-    elif I.path.branch(_iv(n) != 2, "struct.error"):
-        I.raise_py("struct.error", "unpack requires a buffer of 2 bytes")
-    lo, hi = byte_val(data.at(0)), byte_val(data.at(1))
-    v = ops._bitop(I, "|", lo, ops._shift(I, "<<", hi, mkint(8)))
-    return VTuple([v])
+    return _struct_unpack(I, args[0], args[1], mkint(0), True)
+
+
+def struct_unpack_from(I, fv, args, kw):
+    used(I, "struct.unpack")
+    off = args[2] if len(args) > 2 else kw.get("offset", mkint(0))
+    return _struct_unpack(I, args[0], args[1], I.resolve(off), False)
+
+
+def struct_calcsize(I, fv, args, kw):
+    fields, order = _struct_fields(args[0].c if isinstance(args[0], VStr) else None)
+    if fields is None:
+        raise Unsupported("struct.calcsize format")
+    return mkint(sum((cnt if code in ("s", "x") else cnt * _STRUCT_SIZES[code]) for code, cnt in fields))
 
 
 def math_modf(I, fv, args, kw):
@@ -181,6 +262,8 @@ def logging_getLogger(I, fv, args, kw):
 _LIB = {
     "struct.pack": struct_pack,
     "struct.unpack": struct_unpack,
+    "struct.unpack_from": struct_unpack_from,
+    "struct.calcsize": struct_calcsize,
     "math.modf": math_modf,
     "time.time": time_time,
     "logging.getLogger": logging_getLogger,
@@ -913,6 +996,10 @@ def str_method(I, fv, args, kw):            # noqa: F811
         return B.opaque_bool(I, "str_startswith", [s, args[0]])
     if name in ("upper", "lower", "capitalize", "strip", "format"):
         return I.opaque_str(name, tid(I.str_term(s)))
+    if name in ("lstrip", "rstrip", "removeprefix", "removesuffix", "replace", "title", "casefold", "swapcase", "zfill", "ljust", "rjust", "center") \
+            and all(isinstance(a, (VStr, VInt)) for a in args):
+        used(I, f"str.{name}: deterministic string valued function of its operands (uninterpreted), raises nothing")
+        return I.opaque_str(name, tid(I.str_term(s)), *[(a.c if a.c is not None else tid(I.str_term(a) if isinstance(a, VStr) else a.as_int())) for a in args])
     raise Unsupported(f"str method {name}")
 
 
